@@ -679,13 +679,40 @@ bool TypeChecker::typesAreCompatible(
                 case TypeKind::Void:
                     return treatVoidAsAny;
                 case TypeKind::Qualified: {
-                    auto qualTy1 = ty1->asQualifiedType();
-                    auto qualTy2 = ty2->asQualifiedType();
-                    if (qualTy1->qualifiers() != qualTy2->qualifiers())
-                        return false;
+                    // A typedef name may contribute qualifiers of its own
+                    // (const T, with T a const-qualified type, is T).
+                    auto collect = [] (const Type* ty, bool (&quals)[4]) {
+                        while (ty) {
+                            if (ty->kind() == TypeKind::Qualified) {
+                                auto q = ty->asQualifiedType()->qualifiers();
+                                quals[0] |= q.hasConst();
+                                quals[1] |= q.hasVolatile();
+                                quals[2] |= q.hasRestrict();
+                                quals[3] |= q.hasAtomic();
+                                ty = ty->asQualifiedType()->unqualifiedType();
+                            }
+                            else if (ty->kind() == TypeKind::TypedefName
+                                        && ty->asTypedefNameType()->resolvedSynonymizedType()
+                                        && ty->asTypedefNameType()->resolvedSynonymizedType()->kind()
+                                                == TypeKind::Qualified) {
+                                ty = ty->asTypedefNameType()->resolvedSynonymizedType();
+                            }
+                            else
+                                break;
+                        }
+                        return ty;
+                    };
+                    bool quals1[4] = { false, false, false, false };
+                    bool quals2[4] = { false, false, false, false };
+                    auto unqualTy1 = collect(ty1, quals1);
+                    auto unqualTy2 = collect(ty2, quals2);
+                    for (auto i = 0; i < 4; ++i) {
+                        if (quals1[i] != quals2[i])
+                            return false;
+                    }
                     return typesAreCompatible(
-                                qualTy1->unqualifiedType(),
-                                qualTy2->unqualifiedType(),
+                                unqualTy1,
+                                unqualTy2,
                                 treatVoidAsAny,
                                 ignoreQualifier);
                 }
